@@ -31,7 +31,7 @@ import common  # noqa: E402
 import gen_inputs  # noqa: E402
 import relayout_c05 as R  # noqa: E402
 
-PLAIN = ["ws", "case", "comments", "lines", "messy", "tabs", "splitall", "nlall", "nlcmt", "cmtall", "upper", "lower", "wide", "tabsall", "chaos"]
+PLAIN = ["ws", "case", "comments", "lines", "messy", "tabs", "splitall", "nlall", "nlblank", "nlcmt", "cmtall", "upper", "lower", "wide", "tabsall", "chaos"]
 DCOMMENT = ["dcmtplain", "dcmt", "dcmtown", "dcmtsplit", "dcsemi", "dcparen"]
 EXOTIC = ["exotic"]
 FAMILY = {k: "plain" for k in PLAIN}
